@@ -1,6 +1,7 @@
 CONSTANTS
   Nodes <- Nodes3
   MaxKids = 3
+  Alias = FALSE
   Options <- GOpts
 SPECIFICATION Spec
 CHECK_DEADLOCK FALSE
